@@ -140,7 +140,7 @@ def native_replay(rep):
     import os, sys
     sys.path.insert(0, os.path.dirname(os.path.dirname(os.path.abspath(__file__))))
     from native import c10_bounded
-    n, bad = c10_bounded.search(quick=True)
+    n, bad = c10_bounded.search(quick=True, first="innate" if "innate.py" in rep.get("target", "") else None)
     if bad is None:
         return {"confirmed": False, "observed": f"no violation among {n} generated inputs/histories"}
     return {"confirmed": True, "observed": bad, "found_by": f"bounded input/history generation ({n} cases)"}
